@@ -129,6 +129,7 @@ class Report:
         self.relr_sorted = True
         self.n_rela = self.n_relr = 0
         self.got_words = []
+        self.img0 = None         # Image at base 0 (after relocation), for value expectations
 
     def bad(self, key, msg):
         self.problems.append((key, msg))
@@ -203,7 +204,7 @@ def compare(elf, abs_words, fixed_words=(), bases=(0x10000, 0x7f1234567000)):
             rep.bad('fixed-reloc', 'word %#x does not hold an address but carries %s' % (w, cov))
     # ---- images ----------------------------------------------------------------------------
     try:
-        img0 = load_image(elf, 0, relocs)
+        img0 = rep.img0 = load_image(elf, 0, relocs)
         for b1 in bases:
             img1 = load_image(elf, b1, relocs)
             for w in abs_words + rep.got_words:
